@@ -195,7 +195,11 @@ pub fn gen_history(rng: &mut Rng, cfg: &Cfg) -> Vec<Op> {
         tag = tag.wrapping_add(2);
         let op = match rng.weighted(&w) {
             0 => {
-                let n = if big_pushes && rng.chance(1, 4) {
+                let n = if matches!(cfg.property.as_str(), "C08") && cfg.formats.len() <= 3 && rng.chance(1, 12) {
+                    // more than one 512 KiB read buffer of incompressible pages (file-I/O back-end)
+                    tag |= 2; // noise
+                    40 * per_page
+                } else if big_pushes && rng.chance(1, 4) {
                     *rng.pick(&[per_page - 1, per_page, per_page + 1, per_page / 2, 2 * per_page + 3, per_page - 2])
                 } else {
                     *rng.pick(&[1usize, 1, 2, 3, 5, 8, 17, 100])
@@ -342,6 +346,17 @@ fn check_page_index(db: &Database, regions: &[String], stored_len: usize, per_pa
     Ok(shape)
 }
 
+/// (name, len) of every region, sorted.
+fn region_set(db: &Database) -> Vec<(String, usize)> {
+    let regions = db.regions();
+    let mut v: Vec<(String, usize)> = regions.index_to_region().iter().flatten().map(|r| {
+        let m = r.meta();
+        (m.id().to_string(), m.len())
+    }).collect();
+    v.sort();
+    v
+}
+
 pub struct Run<'a, T: Elem> {
     cfg: &'a Cfg,
     dir: std::path::PathBuf,
@@ -378,6 +393,19 @@ impl<'a, T: AllFormats> Run<'a, T> {
 
     fn db(&self) -> &Database {
         self.db.as_ref().unwrap()
+    }
+
+    /// (start, len) of every region of vector k, right now.
+    fn bounds(&self, k: usize) -> Vec<(usize, usize)> {
+        self.slots[k]
+            .v
+            .region_names()
+            .iter()
+            .filter_map(|n| self.db().get_region(n).map(|r| {
+                let m = r.meta();
+                (m.start(), m.len())
+            }))
+            .collect()
     }
 
     fn own_contents(&self) -> bool {
@@ -705,6 +733,7 @@ impl<'a, T: AllFormats> Run<'a, T> {
     fn bad_import(&mut self, op: &Op) -> RunResult<()> {
         // plain import with a mismatching version / format must fail and leave the data alone
         self.reopen_all(false, op)?;
+        let regions_before = region_set(self.db());
         for k in 0..self.slots.len() {
             let fmt = self.slots[k].v.format();
             let name = self.slots[k].v.name();
@@ -716,7 +745,10 @@ impl<'a, T: AllFormats> Run<'a, T> {
                     catch(|| probe.open(db, 0, self.slots[k].m.version + 7, self.cfg.retention).is_err())
                 }
                 _ => {
-                    let other = if fmt == "bytes" { "lz4" } else { "bytes" };
+                    let other = match fmt {
+                        "bytes" | "zerocopy" => ["lz4", "pco", "zstd"][(self.step + k) % 3],
+                        _ => ["bytes", "zerocopy"][(self.step + k) % 2],
+                    };
                     let mut probe = make::<T>(other, &name);
                     catch(|| probe.open(db, 0, self.slots[k].m.version, self.cfg.retention).is_err())
                 }
@@ -727,6 +759,14 @@ impl<'a, T: AllFormats> Run<'a, T> {
                 Err(p) => return Err(viol(self.cfg, "panic", fmt, op, self.step, format!("import panicked: {p}"))),
             }
             self.stats.bump(if matches!(op, Op::BadImportVersion) { "refused.import_wrong_version" } else { "refused.import_wrong_format" });
+        }
+        let regions_after = region_set(self.db());
+        if regions_before != regions_after {
+            let extra: Vec<&String> = regions_after.iter().map(|x| &x.0).filter(|n| !regions_before.iter().any(|b| &b.0 == *n)).collect();
+            return Err(viol(self.cfg, "refused-op-changed-region-set", "db", op, self.step, format!("a refused import changed the database's regions (new: {extra:?})")));
+        }
+        if let Err(e) = crate::w1::check_layout(self.db()) {
+            return Err(viol(self.cfg, "refused-op-broke-extents", "db", op, self.step, e));
         }
         Ok(())
     }
@@ -829,7 +869,16 @@ impl<'a, T: AllFormats> Run<'a, T> {
         if op.is_refused() {
             self.refused_seen = true;
         }
+        // refused requests must leave the database's region set and extents alone, too
+        let regions_before: Option<Vec<(String, usize)>> = if op.is_refused() && !matches!(op, Op::BadImportVersion | Op::BadImportFormat) {
+            Some(region_set(self.db()))
+        } else {
+            None
+        };
         self.written = vec![false; self.slots.len()];
+        let c20_ops = self.cfg.property == "C20" && !matches!(op, Op::Battery { .. } | Op::Reimport { .. } | Op::BadImportVersion | Op::BadImportFormat);
+        let bounds_before: Vec<Vec<(usize, usize)>> = if c20_ops { (0..self.slots.len()).map(|k| self.bounds(k)).collect() } else { Vec::new() };
+        let expanded_before: Vec<bool> = if c20_ops { self.slots.iter().map(|s| s.v.stored_len() > s.v.real_stored_len()).collect() } else { Vec::new() };
         match op {
             Op::Reimport { reopen_db } => {
                 if self.cfg.commits && !self.final_step && self.slots.iter().any(|s| s.m.dirty) {
@@ -844,10 +893,34 @@ impl<'a, T: AllFormats> Run<'a, T> {
             _ => {
                 for k in 0..self.slots.len() {
                     let fmt = self.slots[k].v.format();
+                    if c20_ops {
+                        let mut g = HUB.lock();
+                        g.access.enabled = true;
+                        g.access.events.clear();
+                    }
                     let r = {
                         let this = &mut *self;
                         catch(|| this.apply(k, op))
                     };
+                    if c20_ops {
+                        let events = {
+                            let mut g = HUB.lock();
+                            g.access.enabled = false;
+                            std::mem::take(&mut g.access.events)
+                        };
+                        // reads made while serving this operation: inside the vector's regions as they
+                        // were before or are after the operation (an op may grow or shrink them)
+                        let mut bounds = bounds_before[k].clone();
+                        bounds.extend(self.bounds(k));
+                        self.stats.add("probe.access_events_checked", events.len() as u64);
+                        for (kind, off, len) in &events {
+                            if !bounds.iter().any(|(s, l)| *off >= *s && off + len <= s + l) {
+                                let state = if expanded_before[k] { "logical-length-exceeds-disk" } else { "ordinary" };
+                                return Err(viol(self.cfg, &format!("read-outside-valid-data/{state}"), fmt, op, step,
+                                    format!("{kind:?} access of {len} bytes at file offset {off} while serving this operation is outside the vector's valid data {:?}", bounds)));
+                            }
+                        }
+                    }
                     match r {
                         Err(p) => return Err(viol(self.cfg, "panic", fmt, op, step, format!("library panicked: {p}"))),
                         Ok(Err(e)) => {
@@ -861,6 +934,12 @@ impl<'a, T: AllFormats> Run<'a, T> {
                         }
                     }
                 }
+            }
+        }
+        if let Some(before) = regions_before {
+            let after = region_set(self.db());
+            if before != after {
+                return Err(viol(self.cfg, "refused-op-changed-region-set", "db", op, step, format!("regions before {:?}, after {:?}", before.len(), after.len())));
             }
         }
         // oracle after every step, every vector
